@@ -112,6 +112,9 @@ pub trait DigDyn {
     fn is_empty(&self) -> bool;
     fn clear(&mut self);
     fn fork(&self) -> Box<dyn DigDyn>;
+    fn as_any(&self) -> &dyn std::any::Any;
+    /// `Clone::clone_from`; false if the scale functions differ
+    fn clone_from_dyn(&mut self, src: &dyn DigDyn) -> bool;
 }
 
 impl<S: ScaleFunction + Clone + Debug + 'static> DigDyn for TDigest<S> {
@@ -154,6 +157,18 @@ impl<S: ScaleFunction + Clone + Debug + 'static> DigDyn for TDigest<S> {
     }
     fn fork(&self) -> Box<dyn DigDyn> {
         Box::new(self.clone())
+    }
+    fn as_any(&self) -> &dyn std::any::Any {
+        self
+    }
+    fn clone_from_dyn(&mut self, src: &dyn DigDyn) -> bool {
+        match src.as_any().downcast_ref::<TDigest<S>>() {
+            Some(s) => {
+                self.clone_from(s);
+                true
+            }
+            None => false,
+        }
     }
 }
 
@@ -364,11 +379,11 @@ impl<'a> Exec<'a> {
                 self.viol.push(v("C15", format!("tdigest/{}/cdf-out-of-range", s), self.step, format!("cdf({}) = {}", x, cv)));
                 return;
             }
-            if x < a.min - margin && cv != 0.0 {
+            if x < a.min && cv != 0.0 {
                 self.viol.push(v("C15", format!("tdigest/{}/cdf-below-min", s), self.step, format!("cdf({}) = {} for x < min() = {}", x, cv, a.min)));
                 return;
             }
-            if x > a.max + margin && (cv - 1.0).abs() > tol_q {
+            if x >= a.max && (cv - 1.0).abs() > tol_q {
                 self.viol.push(v("C15", format!("tdigest/{}/cdf-from-max", s), self.step, format!("cdf({}) = {} for x >= max() = {}", x, cv, a.max)));
                 return;
             }
